@@ -79,12 +79,13 @@ TMRun == /\ Is("mrun") /\ ~Idle /\ Rec[base].ev = "minit"
                /\ s >= nxt /\ e - s >= W /\ e <= N
                /\ \A t \in nxt..(s - 1) : ~CleanB(t + 1, W)     \* no clean window skipped
                /\ CleanB(s + 1, e - s)                           \* the whole span is clean
+               \* every window of the run has minimiser v - RunCover!AllWindowsOnePass written out on the span's canonical m-mers
+               \* (one pass over the span instead of one per window; the equivalence with the plain form is model-checked
+               \* there): nothing in the span is smaller than v, and every window holds an occurrence of v
                /\ LET cm == [j \in (s + 1)..(e - M + 1) |-> Canon(Dig(j, M))]       \* canonical m-mers of the span, once
-                      least(t) == LET best[j \in (t + 1)..(t + 1 + W - M)] ==
-                                        IF j = t + 1 THEN cm[j]
-                                        ELSE LET p == best[j - 1] IN IF LexLess(cm[j], p) THEN cm[j] ELSE p
-                                  IN best[t + 1 + W - M]
-                  IN \A t \in s..(e - W) : least(t) = v
+                      last[j \in s..(e - M + 1)] == IF j = s THEN 0 ELSE IF cm[j] = v THEN j ELSE last[j - 1]
+                  IN /\ \A j \in (s + 1)..(e - M + 1) : ~LexLess(cm[j], v)
+                     /\ \A t \in s..(e - W) : last[t + 1 + W - M] >= t + 1
                /\ (adj /\ s = nxt) => lastv # v                 \* maximal on the left
                /\ IF Rec[base].kv = 1
                   THEN LET comb == carry \o [i \in 1..Len(Ev.kmers) |-> LowDigits(Ev.kmers[i], W)]
